@@ -780,6 +780,45 @@ def r9(ctx, rep):
     rep.check(ok, "ids-by-sorted-path", f"SourceTree::new gives the n-th file of the iterator the id n: {why}. The CLI collects a directory into a HashMap first, so the ids - which are part of every span in "
               "`prqlc parse`, the debug log and the RQ / PL JSON - change from run to run", file=f["file"], line=f["l"], fn=f["path"])
 
+def r10(ctx, rep):
+    """An init-once cache (`static X: OnceLock<_>` + `X.get_or_init(|| ..)`, Lazy, OnceCell) keeps the value of its FIRST initialisation for
+    the life of the process. If the initialiser reads a parameter or a local of the enclosing function, the first caller's argument decides
+    what every later caller gets: the output depends on what was compiled before."""
+    rep.rule("C11.R10", "the initialiser of an init-once cache reads no parameter or local of the function it stands in", floor=3)
+    syn = ctx.syn
+    n_sites = 0
+    for f in syn.fns:
+        if f["crate"] not in ("prqlc", "prqlc_parser") or "body" not in f or f.get("in_test"):
+            continue
+        local_names = {x["n"] for p_ in f.get("params", []) for x in walk(p_ if isinstance(p_, dict) else {}) if x.get("k") == "p_ident"}
+        local_names |= {p_["name"] for p_ in f.get("params", []) if isinstance(p_, dict) and p_.get("name")}
+        for n in walk(f["body"]):
+            if n.get("k") == "local":
+                local_names |= {x["n"] for x in walk(n["pat"]) if x.get("k") == "p_ident"}
+        local_names -= {"self"}
+        for n in walk(f["body"]):
+            if not (n.get("k") == "mcall" and n["m"] in ("get_or_init", "get_or_try_init", "get_or_insert_with") and n["a"]):
+                continue
+            recv = show(n["r"])
+            if not re.fullmatch(r"[A-Z][A-Z0-9_]*", recv):
+                continue            # not a static (a field or a local cell lives as long as its owner)
+            n_sites += 1
+            init = n["a"][0]
+            bound = set()
+            if init.get("k") == "closure":
+                bound = {x["n"] for p_ in init["params"] for x in walk(p_) if x.get("k") == "p_ident"}
+                for x in walk(init["body"]):
+                    if x.get("k") == "local":
+                        bound |= {y["n"] for y in walk(x["pat"]) if y.get("k") == "p_ident"}
+                    if x.get("k") == "closure":
+                        bound |= {y["n"] for p_ in x["params"] for y in walk(p_) if y.get("k") == "p_ident"}
+            used = {x["p"] for x in walk(init) if x.get("k") == "path" and "::" not in x["p"]}
+            leak = sorted((used & local_names) - bound)
+            rep.check(not leak, f"init-once:{f['path'].split('::', 1)[-1]}:{recv}", f"`{recv}.{n['m']}(..)` in {f['name']} initialises a process-wide cache from {leak} of the enclosing function: "
+                      "the first call fixes the value for every later call with other arguments (compile for one dialect, then for another, in one process)", file=f["file"], line=n["l"], fn=f["path"])
+    rep.check(n_sites >= 3, "sites", f"expected the keyword tables, the std library and the regex caches, found {n_sites} init-once caches")
+
+
 def run(ctx, rep):
-    for r in (r1_r2, r3, r4, r5, r6, r7, r8, r9):
+    for r in (r1_r2, r3, r4, r5, r6, r7, r8, r9, r10):
         rep.guard(r, ctx)
